@@ -394,6 +394,16 @@ class PDFPageInterpreter:
     def __init__(self, rsrcmgr: PDFResourceManager, device: PDFDevice) -> None:
         self.rsrcmgr = rsrcmgr
         self.device = device
+        # (text state, graphic state, colour spaces) of the invoking content
+        # stream when this interpreter renders a form XObject
+        self.inherited_state: Optional[
+            Tuple[
+                PDFTextState,
+                PDFGraphicState,
+                Optional[PDFColorSpace],
+                Optional[PDFColorSpace],
+            ]
+        ] = None
         # object ids of the form XObjects being rendered (shared with the
         # interpreters made by dup() for their contents)
         self.forms_in_progress: Set[object] = set()
@@ -466,6 +476,16 @@ class PDFPageInterpreter:
         self.ncs: Optional[PDFColorSpace] = None
         if self.csmap:
             self.scs = self.ncs = next(iter(self.csmap.values()))
+        # A form XObject starts from the graphics state of the content
+        # stream that invokes it (PDF 32000-1, 8.10.1)
+        if self.inherited_state is not None:
+            (
+                self.textstate,
+                self.graphicstate,
+                self.scs,
+                self.ncs,
+            ) = self.inherited_state
+            self.textstate.reset()
         # inline images of this content stream are numbered in order
         self.inline_image_count = 0
 
@@ -1281,6 +1301,12 @@ class PDFPageInterpreter:
                 resources = dict_value(xobjres)
             else:
                 resources = self.resources.copy()
+            interpreter.inherited_state = (
+                self.textstate.copy(),
+                self.graphicstate.copy(),
+                self.scs,
+                self.ncs,
+            )
             self.device.begin_figure(xobjid, bbox, matrix)
             self.forms_in_progress.add(form_id)
             try:
